@@ -226,6 +226,41 @@ theorem split_covers (fs : List Bytes) :
           exact absurd hgood hn413
 
 
+/-- the recursion never indexes outside the begin table or the buffer and never runs out of fuel -/
+theorem split_ok (fs : List Bytes) :
+    ∀ fuel l r sc, l ≤ r → r ≤ fs.length → r - l ≤ fuel →
+      ∃ res, sendSplit fuel l r (offs 0 fs) fs.flatten sc = .ok res := by
+  intro fuel
+  induction fuel with
+  | zero =>
+    intro l r sc hlr hr hf
+    have : l = r := by omega
+    subst this
+    exact ⟨⟨200, false, sc, []⟩, by unfold sendSplit; simp⟩
+  | succ n ih =>
+    intro l r sc hlr hr hf
+    unfold sendSplit
+    by_cases hEq : l = r
+    · exact ⟨⟨200, false, sc, []⟩, by simp [hEq]⟩
+    · simp only [hEq, if_false, sliceBE_offs fs l r hlr hr]
+      split
+      · exact ⟨_, rfl⟩
+      · split
+        · split
+          · exact ⟨_, rfl⟩
+          · have hm1 : l ≤ (l + r) / 2 := by omega
+            have hm2 : (l + r) / 2 ≤ r := by omega
+            obtain ⟨lres, hl⟩ := ih l ((l + r) / 2) (nextStatus 200 sc).2 hm1 (by omega) (by omega)
+            rw [hl]
+            simp only
+            split
+            · exact ⟨_, rfl⟩
+            · obtain ⟨rres, hr'⟩ := ih ((l + r) / 2) r lres.sc hm2 hr (by omega)
+              rw [hr']
+              simp only
+              split <;> exact ⟨_, rfl⟩
+        · exact ⟨_, rfl⟩
+
 /-! ### the ForEach loop of elasticsearch / http builds the frames and their begin table -/
 
 theorem acc_foldl (fr : Ev → Bytes) (l : List Ev) (a : Acc) :
